@@ -317,6 +317,9 @@ func (e *SpecEnv) evalIdent(name string) Val {
 			case *types.Var:
 				if e.c.eng != nil {
 					if g := e.c.eng.globalFor(o); g != nil {
+						if name, ok := e.c.globalErrConst(g, o.Type()); ok {
+							return Val{T: o.Type(), S: name} // fixed value: the same in every state
+						}
 						fr := e.f
 						if fr == nil {
 							fr = e.c.newFrame(nil, nil)
